@@ -1,0 +1,84 @@
+//! Verification hooks (compiled only with `--cfg tokio_rs_tracing_verif`).
+//!
+//! A table of function pointers a deterministic simulator may install at start-up. With no table
+//! installed every function here behaves exactly like the code it stands in for.
+use std::sync::atomic::{AtomicPtr, Ordering};
+use std::sync::{LockResult, RwLock, RwLockReadGuard, RwLockWriteGuard, TryLockError};
+use std::time::SystemTime;
+
+/// Simulator entry points.
+#[derive(Debug)]
+pub struct Hooks {
+    /// A possible preemption point, named by a static site label.
+    pub point: fn(&'static str),
+    /// Simulated blocking: call `test` until it returns true, yielding in between.
+    pub block_until: fn(&'static str, &mut dyn FnMut() -> bool),
+    /// The simulated wall clock, if the simulator provides one.
+    pub now: fn() -> Option<SystemTime>,
+}
+
+static HOOKS: AtomicPtr<Hooks> = AtomicPtr::new(core::ptr::null_mut());
+
+/// Install the simulator's hook table.
+pub fn install(hooks: &'static Hooks) {
+    HOOKS.store(hooks as *const Hooks as *mut Hooks, Ordering::SeqCst);
+}
+
+fn hooks() -> Option<&'static Hooks> {
+    unsafe { HOOKS.load(Ordering::SeqCst).as_ref() }
+}
+
+/// A possible preemption point.
+#[inline]
+pub fn point(site: &'static str) {
+    if let Some(h) = hooks() {
+        (h.point)(site)
+    }
+}
+
+/// The simulated wall clock, when a simulator is installed and provides one.
+#[inline]
+pub fn now() -> Option<SystemTime> {
+    hooks().and_then(|h| (h.now)())
+}
+
+/// `RwLock::read` that never really blocks while a simulator is installed.
+pub fn read<'a, T>(lock: &'a RwLock<T>, site: &'static str) -> LockResult<RwLockReadGuard<'a, T>> {
+    let h = match hooks() {
+        Some(h) => h,
+        None => return lock.read(),
+    };
+    (h.point)(site);
+    let mut got = None;
+    (h.block_until)(site, &mut || {
+        got = match lock.try_read() {
+            Ok(g) => Some(Ok(g)),
+            Err(TryLockError::Poisoned(p)) => Some(Err(p)),
+            Err(TryLockError::WouldBlock) => None,
+        };
+        got.is_some()
+    });
+    got.expect("block_until returned without the lock")
+}
+
+/// `RwLock::write` that never really blocks while a simulator is installed.
+pub fn write<'a, T>(
+    lock: &'a RwLock<T>,
+    site: &'static str,
+) -> LockResult<RwLockWriteGuard<'a, T>> {
+    let h = match hooks() {
+        Some(h) => h,
+        None => return lock.write(),
+    };
+    (h.point)(site);
+    let mut got = None;
+    (h.block_until)(site, &mut || {
+        got = match lock.try_write() {
+            Ok(g) => Some(Ok(g)),
+            Err(TryLockError::Poisoned(p)) => Some(Err(p)),
+            Err(TryLockError::WouldBlock) => None,
+        };
+        got.is_some()
+    });
+    got.expect("block_until returned without the lock")
+}
